@@ -6,6 +6,8 @@ import (
 	"sort"
 	"strings"
 
+	"golang.org/x/tools/go/ssa"
+
 	"cadcheck/core"
 )
 
@@ -89,7 +91,7 @@ func exhaustive(r *core.Run, rule, rel, recv, fn, iface string, allow map[string
 func c41(r *core.Run) {
 	r.Explanation = "Decided clauses: (R1) the JSON encoder's Prepare / PrepareType switches have an arm for every concrete type implementing cadence.Value / cadence.Type; " +
 		"(R2) every kind string constant the encoder emits is also referenced by the decoder (a kind the decoder does not know cannot round-trip); " +
-		"(R3) Decoder.Decode's recover converts every error panic into a returned decoding error and re-panics only non-errors (reviewed arm summary)."
+		"(R3) Decoder.Decode's recover converts every error panic into a returned decoding error and re-panics only non-errors (reviewed arm summary). (R4) no error of an inner encode/decode step of encoding/json is dropped or swallowed beyond the pinned baseline."
 	r.NotDecided = "round-trip equality; robustness against arbitrary malformed JSON beyond the recover boundary."
 	w := r.W
 	exhaustive(r, "R1.exhaustive", "encoding/json", "", "Prepare", "Value", map[string]string{
@@ -134,11 +136,13 @@ func c41(r *core.Run) {
 		}
 	}
 	r.Floor("R3.recover", 1)
+	// shared ERR rule restricted to this codec: a failure of an inner encode/decode step must not be dropped
+	errDiscipline(r, "R4.errdrop", "encoding/json functions", func(fn *ssa.Function) bool { return fn.Pkg != nil && fn.Pkg.Pkg.Path() == mod+"/encoding/json" }, 12)
 }
 
 func c43(r *core.Run) {
 	r.Explanation = "Decided clauses: (R1) per value kind both decoders build their result through the same cadence constructors: for every cadence.New* constructor the CCF decoder calls for a value kind, the JSON decoder calls a constructor of the same kind family " +
-		"(pinned census of constructor sets per decoder, compared by kind); (R2) both decoders have an arm for the same set of cadence value kinds."
+		"(pinned census of constructor sets per decoder, compared by kind); (R2) both decoders have an arm for the same set of cadence value kinds. (R3) no error of an inner encode/decode step of encoding/json is dropped or swallowed beyond the pinned baseline."
 	r.NotDecided = "equality of the decoded values (field order, type attachment, numeric parsing)."
 	w := r.W
 	ctorSet := func(rel string) map[string]bool {
@@ -183,4 +187,6 @@ func c43(r *core.Run) {
 			"the CCF decoder constructs cadence "+k+" values but the JSON decoder has no counterpart: the two codecs cannot decode to the same value for this kind")
 	}
 	r.Floor("R1.constructors", 30)
+	// shared ERR rule restricted to this codec: a failure of an inner encode/decode step must not be dropped
+	errDiscipline(r, "R3.errdrop", "encoding/json functions", func(fn *ssa.Function) bool { return fn.Pkg != nil && fn.Pkg.Pkg.Path() == mod+"/encoding/json" }, 12)
 }
